@@ -70,6 +70,7 @@ static int findc(int r, int *o, int cmd, const char *c, int cnt)
 static int allblank(int r) { int i; for (i = 0; i < nch[r]; i++) if (L[r][i].kind) return 0; return nch[r] > 0; }
 /* kind for word (big = 0) or bigword (big = 1) motions */
 static int kd(int r, int o, int big) { int k = L[r][o].kind; return big && k ? 1 : k; }
+static int nonext;	/* a w/W that found no further word (as an operator's motion it then takes the rest of the line) */
 /* word motions; returns 0 if the reference defines the target (stored in *r,*o), 1 if this case is not asserted */
 static int wordmot(int cmd, int *r, int *o)
 {
@@ -81,7 +82,7 @@ static int wordmot(int cmd, int *r, int *o)
 		while (i < n && kd(*r, i, big) == 0)
 			i++;
 		if (i < n) { *o = i; return 0; }
-		if (*r + 1 >= NLN) { *o = n ? n - 1 : 0; return 0; }	/* no next word: the last character */
+		if (*r + 1 >= NLN) { *o = n ? n - 1 : 0; nonext = 1; return 0; }	/* no next word: the last character */
 		if (allblank(*r + 1)) return 1;
 		++*r;
 		*o = nch[*r] ? indent(*r) : 0;
@@ -218,6 +219,10 @@ void harness(void)
 		int c = cnt ? cnt + 1 : 1, col;
 		if (cnt && (m >= 24 || m == 2))
 			cnt = 0, c = 1;		/* sequences and 0 are run without a count */
+#ifdef OPER
+		symx_assume(m <= 23 || m == 29);	/* single motions only */
+		keys[kn++] = 'd';
+#endif
 		if (cnt)
 			keys[kn++] = '1' + cnt;
 		kn += sprintf(keys + kn, "%s", mots[m]);
@@ -258,7 +263,11 @@ void harness(void)
 		default: asserted = 0;
 		}
 	}
+#ifdef OPER
+	kn += sprintf(keys + kn, "\033:w\n:q\n");
+#else
 	kn += sprintf(keys + kn, "iX\033:w\n:q\n");
+#endif
 	vih_keys(keys, kn);
 	symx_observe_mem("keys", keys, kn);
 	symx_observe_mem("file", file, flen);
@@ -266,6 +275,73 @@ void harness(void)
 	env_columns = "30";
 	env_exinit = "set nohl | set noru | set noorder | set noshape";
 	vih_run_vi("f");
+#ifdef OPER
+	/* C08-H2: the region of d<motion> is the span between the cursor and the reference target:
+	 * line-wise for j k G + - _, inclusive for f t e E $, exclusive for the others */
+	{
+		static char want[200];
+		char *got = vih_file("f");
+		int glen = vih_filelen("f"), wl = 0, lnwise, incl, a, b2, same;
+		lnwise = m >= 6 && m <= 11;
+		incl = m == 4 || m == 12 || m == 14 || m == 16 || m == 17 || m == 20 || m == 23 || m == 29;
+		same = rr == r0 && ro == o0;
+		/* not asserted: word motions that leave the line (dw at the end of a line has rules of its own), motions
+		 * that do not move (dl on the last character, d$ on an empty line), and what the motion reference leaves open */
+		if (!asserted || nonext || (!lnwise && rr != r0 && !((m == 20 || m == 23) && rr > r0)) || (same && !lnwise && !(incl && nch[r0])))
+			asserted = 0;
+		/* a search that fails leaves everything alone */
+		if ((m >= 12 && m <= 17) || m == 29) {
+			int t = o0;
+			static const char *tg[] = {"a", "a", "a", "a", ".", ".", "\xc3\xa9"};
+			if (findc(r0, &t, "fFtTftf"[m == 29 ? 6 : m - 12], tg[m == 29 ? 6 : m - 12], cnt ? cnt + 1 : 1)) {
+				symx_reach("failed-motion");
+				symx_assert(glen == flen && !memcmp(got, file, flen), "an operator whose motion fails changes nothing");
+				symx_reach("end");
+				return;
+			}
+		}
+		if (asserted) {
+			symx_reach("asserted");
+			if (lnwise) {
+				int lo = rr < r0 ? rr : r0, hi = rr < r0 ? r0 : rr;
+				for (r = 0; r < NLN; r++)
+					if (r < lo || r > hi) {
+						wl += sprintf(want + wl, "%s\n", text[r]);
+					}
+			} else if (rr > r0) {
+				/* e / E onto a following line: from the cursor through the target character */
+				for (r = 0; r < r0; r++)
+					wl += sprintf(want + wl, "%s\n", text[r]);
+				for (i = 0; i < o0; i++)
+					wl += sprintf(want + wl, "%s", L[r0][i].b);
+				for (i = ro + 1; i < nch[rr]; i++)
+					wl += sprintf(want + wl, "%s", L[rr][i].b);
+				want[wl++] = '\n';
+				for (r = rr + 1; r < NLN; r++)
+					wl += sprintf(want + wl, "%s\n", text[r]);
+			} else {
+				a = ro < o0 ? ro : o0;
+				b2 = ro < o0 ? o0 : ro;		/* exclusive end */
+				if (incl)
+					b2++;
+				for (r = 0; r < NLN; r++) {
+					if (r != r0) {
+						wl += sprintf(want + wl, "%s\n", text[r]);
+						continue;
+					}
+					for (i = 0; i < nch[r]; i++)
+						if (i < a || i >= b2)
+							wl += sprintf(want + wl, "%s", L[r][i].b);
+					want[wl++] = '\n';
+				}
+			}
+			symx_observe_mem("got", got, glen);
+			symx_assert(glen == wl && !memcmp(got, want, wl), "d<motion> removes exactly the span between the cursor and the motion target");
+		}
+		symx_reach("end");
+		return;
+	}
+#endif
 	/* where is the marker? */
 	{
 		char *got = vih_file("f");
